@@ -64,6 +64,19 @@ def monitor(ex, final):
             if c.exc is not None:
                 raise V(ex, 'send-raised', str(st_) + '|' + type(c.exc).__name__,
                         'send%r raised %r' % (c.args[:1], c.exc))
+    # 1b. disconnect() with an id that names no session touches no session
+    if not final:
+        for c in calls:
+            if getattr(c, 'foreign_sid', False) and c.step == len(ex.actions) and c.quiet and \
+                    c.settled:
+                al = ex.world.app_log
+                hit = [(x, a) for (t, e, x, a), stp in zip(al.events, al.steps)
+                       if e == 'disconnect' and stp == c.step]
+                if hit:
+                    raise V(ex, 'call-with-dead-id-touched-session',
+                            'disconnect|%r' % (c.args[0],),
+                            'disconnect(%r) names no session, yet %d session(s) got a disconnect '
+                            'event (%r)' % (c.args[0], len(hit), hit[0][1]))
     # 2. nothing sent to a dead id is ever delivered anywhere
     dead = {}
     for x in ex.dead_sends:
@@ -201,6 +214,8 @@ PROFILE = {
                 'ws_fail': 1, 'pong': 1, 'app_send': 4, 'app_disconnect': 2, 'advance': 5,
                 'api': 9, 'vanish': 3, 'fault': 1},
     'max_sessions': 5,
+    'disconnect_dead_sid_pct': 25,   # disconnect('') / (0) / (unknown id): names no session
+    'reactions': [('bye', 10), ('echo', 10)],    # message handlers that disconnect / reply themselves
     'packet_kinds': [('msg', 3), ('pong', 1), ('close', 2), ('bad', 1)],
     'post_modes': [('pkts', 6), ('raw', 1)],
     'config': {'http_compression': st.sampled_from([True, False]),
